@@ -31,6 +31,7 @@ using namespace iora::network;
 namespace
 {
 std::string CERTS;
+bool THOROUGH = false; // thorough tier: short reads/writes of both endpoints become environment deviations (E)
 const char *MARKER = "APPDATA-MARKER-7f3a9c";
 const char *PEERDATA = "PEER-APP-DATA-51c2";
 
@@ -141,7 +142,7 @@ void clientSide(bool thorough)
 {
   mc_label("main:client-side");
   simk_cfg.tcpRcvBuf = 65536;
-  simk_cfg.shortIo = false;
+  simk_cfg.shortIo = THOROUGH;
   ClientCell c = chooseClientCell(thorough);
   std::string name = cellName(c);
   applyClock(c.clock);
@@ -225,7 +226,7 @@ void serverSide()
 {
   mc_label("main:server-side");
   simk_cfg.tcpRcvBuf = 65536;
-  simk_cfg.shortIo = false;
+  simk_cfg.shortIo = THOROUGH;
   ServerCell c;
   c.require = mc_choose(2, MC_FREE);
   c.cli = mc_choose(3, MC_FREE);
@@ -292,7 +293,7 @@ void httpClientSide()
 {
   mc_label("main:http-client");
   simk_cfg.tcpRcvBuf = 65536;
-  simk_cfg.shortIo = false;
+  simk_cfg.shortIo = THOROUGH;
   mc_set_sleep_quantum(1000000000ull);
   ClientCell c;
   c.verify = 1 - mc_choose(2, MC_FREE);
@@ -351,6 +352,7 @@ int main(int argc, char **argv)
     if (std::string(argv[i]) == "--certs")
       CERTS = argv[i + 1];
   }
+  THOROUGH = thorough;
   if (CERTS.empty())
     CERTS = "/verif/build/certs";
   // the "system trust store" of this run is CA-B
@@ -369,6 +371,7 @@ int main(int argc, char **argv)
     m.thorough.S = 0;
     m.thorough.E = 1;
     m.thorough.P = 1;
+    m.thorough.total = 1; // one deviation (preemption or short I/O) per cell
     m.horizon_s = 60;
     m.weight = 6;
     v.push_back(m);
@@ -381,6 +384,7 @@ int main(int argc, char **argv)
     m.thorough.S = 0;
     m.thorough.E = 1;
     m.thorough.P = 1;
+    m.thorough.total = 1; // one deviation (preemption or short I/O) per cell
     m.horizon_s = 60;
     m.weight = 2;
     v.push_back(m);
@@ -393,6 +397,7 @@ int main(int argc, char **argv)
     m.thorough.S = 0;
     m.thorough.E = 1;
     m.thorough.P = 1;
+    m.thorough.total = 1; // one deviation (preemption or short I/O) per cell
     m.horizon_s = 60;
     m.weight = 2;
     v.push_back(m);
